@@ -1,6 +1,5 @@
 import BpModel.All
 import BpModel.Json
-import BpProofs.Json
 import BpProofs.Ops
 import BpProofs.SpecWf
 /-
@@ -26,6 +25,21 @@ def skipsSelected (f : FieldD) : Val → Bool
   | .ph => (f.wraps.isSome || f.optional) && skipsNone f
   | _ => false
 
+/-! `BpProofs.Json` cannot be imported here (it clashes with `BpProofs.RtFlat`, which C14
+    imports next to C07), so its two unfolding lemmas are repeated under local names -/
+def isLeafV : Val → Bool
+  | .ph | .list _ | .dict _ _ | .msg _ _ _ _ _ => false
+  | _ => true
+
+theorem toDictSlot_leaf' (S : Schema) (E : Enums) (cs : KeyCase) (incl : Bool) (f : FieldD) (hid sel : Bool) (v : Val)
+    (h : isLeafV v = true) :
+    toDictSlot S E cs incl f hid sel v = if hid then toDictDefault S E f sel incl else toDictPlain S E f sel incl v := by
+  cases v <;> first | (simp [isLeafV] at h; done) | (rw [toDictSlot]; all_goals (intros; contradiction))
+
+theorem toDictSlot_ph' (S : Schema) (E : Enums) (cs : KeyCase) (incl : Bool) (f : FieldD) (hid sel : Bool) :
+    toDictSlot S E cs incl f hid sel .ph = toDictDefault S E f sel incl := by
+  rw [toDictSlot]
+
 /-- an unselected member whose raw slot is unset writes nothing -/
 theorem toDictDefault_unselected (S : Schema) (E : Enums) (f : FieldD)
     (hr : f.repeated = false) :
@@ -43,7 +57,7 @@ theorem toDictSlot_unselected (S : Schema) (E : Enums) (cs : KeyCase) (f : Field
     toDictSlot S E cs false f true false v = Option.none := by
   have h := toDictDefault_unselected S E f hr
   cases v <;> first
-    | (rw [toDictSlot_leaf _ _ _ _ _ _ _ _ rfl]; simpa using h)
+    | (rw [toDictSlot_leaf' _ _ _ _ _ _ _ _ rfl]; simpa using h)
     | (rw [toDictSlot]; simpa using h)
 
 set_option maxHeartbeats 1000000 in
@@ -57,7 +71,7 @@ theorem toDictSlot_selected (S : Schema) (E : Enums) (cs : KeyCase) (f : FieldD)
   simp only at hr hm; subst hr
   cases v with
   | ph =>
-    rw [toDictSlot_ph]
+    rw [toDictSlot_ph']
     cases ty <;> cases wraps <;> cases kind <;> cases opt <;>
       first
       | (exact absurd rfl hm)
@@ -76,7 +90,7 @@ theorem toDictSlot_selected (S : Schema) (E : Enums) (cs : KeyCase) (f : FieldD)
     rw [toDictSlot]
     cases ty <;> cases wraps <;> first | (exact absurd rfl hm) | simp [skipsSelected]
   | _ =>
-    rw [toDictSlot_leaf _ _ _ _ _ _ _ _ rfl]
+    rw [toDictSlot_leaf' _ _ _ _ _ _ _ _ rfl]
     cases ty <;> cases wraps <;>
       first
       | (exact absurd rfl hm)
